@@ -83,9 +83,16 @@ impl WaitGroup {
 
     // Slow path: Wait for notification.
     loop {
+      // Register before re-checking so a done() that reaches zero in between is not missed
+      // (notify_waiters() stores no permit).
+      let notified = self.notify_on_zero.notified();
+      tokio::pin!(notified);
+      notified.as_mut().enable();
+      if self.count.load(Ordering::Acquire) == 0 {
+        return;
+      }
       verif_point!("waitgroup:checked_nonzero");
-      // Wait until notified. notified() consumes a permit.
-      self.notify_on_zero.notified().await;
+      notified.await;
 
       // Check count again after notification (spurious wakeup or race check).
       if self.count.load(Ordering::Acquire) == 0 {
